@@ -1,6 +1,10 @@
 package main
 
-import "verifharness/tl"
+import (
+	"time"
+
+	"verifharness/tl"
+)
 
 // C08: at most laneSize tasks at once; work sharing. Families: for laneSize 2-4 x queueSize 0-3, every target
 // lane L and every set P of pinned workers with L's own worker in P and |P| < laneSize, everything pushed to
@@ -9,7 +13,7 @@ import "verifharness/tl"
 // stress with tasks that stay in Start() for a while (concurrency reaches laneSize; the bound is a monitor over
 // every history).
 func main() {
-	tl.Main("C08", []tl.Family{{Name: "sharing", Run: sharing}, {Name: "bound", Run: bound}, {Name: "stress", Run: stress}})
+	tl.Main("C08", []tl.Family{{Name: "idleprobe", Run: idleprobe, Background: true}, {Name: "sharing", Run: sharing}, {Name: "bound", Run: bound}, {Name: "stress", Run: stress}})
 }
 
 func reps(en *tl.Engine, quick, thorough int) int {
@@ -28,6 +32,9 @@ func sharing(en *tl.Engine) {
 				continue
 			}
 			en.SharingSubsets(n, q)
+			if n <= 3 {
+				en.SharingSubsetsOneP(n, q) // GOMAXPROCS(1) before New
+			}
 			for m := 1; m < n; m++ {
 				// all pinning tasks through the same lane: they spread over the workers by sharing alone
 				en.WorkSharing(n, q, make([]int, m), 0, q+2)
@@ -60,4 +67,15 @@ func stress(en *tl.Engine) {
 		n, q := 1+en.Rng.Intn(4), en.Rng.Intn(4)
 		en.Stress(n, q, tl.StressOpt{Big: true, PanicPct: 5, Observers: 0, SleepTasks: true, CancelMode: 0, Kinds: true}, i)
 	}
+}
+
+// lanes created at process start and left completely idle; only after 12 s (thorough: also after 35 s) the
+// pinned-worker sharing scenario runs on them. Runs in parallel to the other families.
+func idleprobe(en *tl.Engine) {
+	cfgs := [][2]int{{2, 1}, {3, 0}, {4, 2}}
+	if en.E.Thorough() {
+		en.IdleProbe(35*time.Second, cfgs)
+		return
+	}
+	en.IdleProbe(12*time.Second, cfgs)
 }
